@@ -16,6 +16,24 @@ def wallet(keys_spec):
         ("wallet:%s:%d" % (p, k)).encode()).digest(), "big")) for p, k in keys_spec}
 
 
+_ZERO_X = {}
+
+
+def zero_x_index(path, what="x"):
+    """The smallest k for which wallet([[path, k]]) has a public key whose X (or Y) coordinate
+    begins with a zero byte - one key in 256 does; fixed-width encoders and comparisons have to
+    cope with it."""
+    if (path, what) not in _ZERO_X:
+        k = 0
+        while True:
+            pub = pub_uncompressed(wallet([[path, k]])[path])
+            if (pub[1] if what == "x" else pub[33]) == 0:
+                break
+            k += 1
+        _ZERO_X[(path, what)] = k
+    return _ZERO_X[(path, what)]
+
+
 def pubkeys_hash(pub_by_path):
     """SHA-256 over the uncompressed keys in (lexicographic) path order."""
     h = hashlib.sha256()
